@@ -41,15 +41,17 @@ vf_clk vf_pr_wc[VF_RACE_PROBES];              /* its clock */
 vf_clk vf_pr_rc[VF_RACE_PROBES][VF_NTHREADS]; /* last read clock per thread */
 void *vf_pr_key[VF_RACE_PROBES];
 
-/* Both tables are keyed by the exact address (linear search, entries are never removed), so two objects never share an entry: a shared atomic entry would add happens-before edges
- * (missed races), a shared probe entry would invent races.  [An earlier version used direct-mapped
+/* Both tables are keyed by the exact address (linear search, entries are never removed), so two
+ * objects never share an entry: a shared atomic entry would add happens-before edges (missed races),
+ * a shared probe entry would invent races.  [An earlier version used direct-mapped
  * tables and cut (assume) every execution in which two probe addresses collided; with 6 probe addresses
  * in 8 slots that silently removed most executions -- a mutant-sized hole.]  A full table is reported
  * as an `rt:` failure (raise VF_RACE_ATOMS / VF_RACE_PROBES in rt_defs), never silently.
  * Cost: a table whose keys are entered at schedule-dependent times has symbolic contents, and every
  * later lookup yields a symbolic index (measured: 10x solver time).  Harnesses should therefore touch
  * every atomic object (a relaxed load) and every probe address (vf_race_read) once in vf_main BEFORE
- * the first vf_spawn: the keys are then constants, lookups of concrete addresses fold at symex time. */
+ * the first vf_spawn, inside one `VfAtomic` scope (no preemption, see harness/C10/probe.h): the keys
+ * are then constants, lookups of concrete addresses fold at symex time. */
 static int vf_race_slot(void **keys, int n, void *k) {
   int r = -1;
   for (int i = 0; i < n; i++) /* entries are filled in index order: the first match or the first free one */
